@@ -46,6 +46,26 @@ Theorem C05_solve_reaches_end snap propose stop t0 simTime fmin fmax :
 Proof. exact (solve_contract_R snap propose stop t0 simTime fmin fmax). Qed.
 Print Assumptions C05_solve_reaches_end.
 
+(* one model object used for several solve() calls: every call honours the contract with its own
+   duration and its own step fractions, starting where the previous call ended (nothing but the model's
+   clock is carried over) *)
+Theorem C05_history_contract snap (segs : list (seg Rops)) t0 : Forall good_seg segs ->
+  Forall2 (fun (s : seg Rops) (tr : R * run Rops) =>
+     let t := fst tr in
+     exists l, snd tr = Done l /\
+       let ts := map fst l in
+       StronglySorted Rlt (t :: ts) /\ Forall (fun x => x <= t + seg_sim Rops s) ts /\
+       (forall k tk tk', nth_error (t :: ts) k = Some tk -> nth_error ts k = Some tk' ->
+          Rmin (seg_fmin Rops s * seg_sim Rops s) (t + seg_sim Rops s - tk) <= tk' - tk
+            <= Rmin (seg_fmax Rops s * seg_sim Rops s) (t + seg_sim Rops s - tk)) /\
+       match first_true (seg_stop Rops s) (length ts) with
+       | Some j => length ts = S j
+       | None => last ts t = t + seg_sim Rops s
+       end)
+    segs (solve_history Rops snap t0 segs).
+Proof. exact (history_contract snap segs t0). Qed.
+Print Assumptions C05_history_contract.
+
 (* the two-sided clamp, for every proposal: the accepted step is at most the upper bound and at least
    the smaller of the two bounds *)
 Theorem C05_clamp_bounds p lo hi : Rmin lo hi <= clamp Rops p lo hi <= hi.
@@ -142,6 +162,22 @@ Theorem C05_f64_absorption_refuted : forall fuel,
 Proof. exact absorption_witness. Qed.
 Print Assumptions C05_f64_absorption_refuted.
 Close Scope float_scope.
+
+(* ---- hook registration (DESolver.setFunctions) ------------------------------------------------------ *)
+(* after any sequence of setFunctions calls each slot holds the hook of the last call that gave one for
+   that slot (a call that omits a hook keeps the one registered before); calls commute unless they give
+   the same slot *)
+Theorem C05_hooks_last_given calls :
+  slot_pre (hooks_after calls) = last_given (map slot_pre calls) /\
+  slot_post (hooks_after calls) = last_given (map slot_post calls) /\
+  slot_header (hooks_after calls) = last_given (map slot_header calls) /\
+  slot_status (hooks_after calls) = last_given (map slot_status calls).
+Proof. exact (hooks_last_given calls). Qed.
+Print Assumptions C05_hooks_last_given.
+
+Theorem C05_setFunctions_keeps_post h a c d : slot_post (setFunctions h (a, None, c, d)) = slot_post h.
+Proof. exact (setFunctions_keeps_post h a c d). Qed.
+Print Assumptions C05_setFunctions_keeps_post.
 
 (* ---- state layout ------------------------------------------------------------------------------------ *)
 (* unflattenX(flattenX(X), X_ref) = X whenever X_ref has the layout of X (scalars / 1-D arrays) *)
